@@ -501,7 +501,16 @@ def wrap_singles(th, marks, inst):
     th._interdiffusivitySingle = mk('interdiff', th._interdiffusivitySingle)
     th._tracerDiffusivitySingle = mk('tracer', th._tracerDiffusivitySingle)
     if hasattr(th, 'curvatureFactor'):
-        th.curvatureFactor = mk('curv', th.curvatureFactor)
+        orig_curv = th.curvatureFactor
+
+        def curv_fb(x, T, precPhase=None, *a, **k):
+            # `_process_invalid_eq` returns the stored CurvatureOutput object itself; a computed answer is a new object
+            before = {p: id(o) for p, o in th._curvature_outputs.items()}
+            r = orig_curv(x, T, precPhase, *a, **k)
+            if inst.on:
+                inst.log.append(('FB', r is not None and id(r) in before.values()))
+            return r
+        th.curvatureFactor = mk('curv', curv_fb)
         th._interfacialComposition = mk('ic', th._interfacialComposition)
     counts = {'sample_calls': 0}
     orig_s = th._getPrecCompositionSetSamplingDF
@@ -665,6 +674,26 @@ def vals_close(a, b, name):
     return worst is None, worst
 
 
+def k2_phase_sets(events):
+    """phase sets found by the two-phase equilibria (cached local or global) in an event list, in order"""
+    out = []
+    for e in events:
+        if e[0] == 'L' and len(e[1]) == 2:
+            out.append(('cached' if e[2] else 'local', tuple(sorted(set(e[6])))))
+        elif e[0] == 'G':
+            out.append(('global', tuple(sorted(set(e[5])))))
+    return out
+
+
+def phase_set_mismatch(evW, evR):
+    """the warmed object computed a two-phase equilibrium from cached composition sets and found other phases than
+    the reference object's global equilibrium (or took a different number of equilibria)"""
+    a, b = k2_phase_sets(evW), k2_phase_sets(evR)
+    if not any(k == 'cached' for k, _ in a):
+        return False
+    return [p for _, p in a] != [p for _, p in b]
+
+
 def reset_ref(ref):
     ref.clearCache()
     if hasattr(ref, '_curvature_outputs'):
@@ -747,15 +776,20 @@ def run_sequence(ctx, res, kind, method, qs, inst, use_model, seq_id):
         # ---------------- D. numerical purity (MONITORED): warmed vs cleared reference, array vs singles, repeat
         reset_ref(R)
         singles = single_points(q)
-        if len(singles) == 1:
-            vR, _ = call_public(R, q)
-            parts = None
-        else:
-            parts = []
-            for sq in singles:
-                reset_ref(R)
-                parts.append(call_public(R, sq)[0])
-            vR = None
+        inst.log.clear(); inst.on = True
+        try:
+            if len(singles) == 1:
+                vR, _ = call_public(R, q)
+                parts = None
+            else:
+                parts = []
+                for sq in singles:
+                    reset_ref(R)
+                    parts.append(call_public(R, sq)[0])
+                vR = None
+        finally:
+            inst.on = False
+        eventsR = list(inst.log)
         if parts is None:
             ok, worst = vals_close(vW, vR, n)
         else:
@@ -765,12 +799,23 @@ def run_sequence(ctx, res, kind, method, qs, inst, use_model, seq_id):
             else:
                 vR = np.array([np.asarray(p, dtype=np.float64) for p in parts])
             ok, worst = vals_close(vW, vR, n)
+        fb_used = any(e[0] == 'FB' and e[1] for e in events)
+        if fb_used:
+            res.count('curvature-fallback-used')
         if not ok:
-            fallback = (n == 'curv' and q['dir'] is None and vR is None and vW is not None)
-            if fallback:
+            if n in ('curv', 'growth') and fb_used and vR is None:
                 key = 'curvature-fallback-previous-output'
-                what = ('curvatureFactor at a composition whose equilibrium gives no two-phase result (no searchDir): a new/cleared object returns None, '
-                        'the warmed object returned the output of its previous query')
+                what = ('curvatureFactor / getGrowthAndInterfacialComposition at a condition whose equilibrium gives no two-phase result (no searchDir): '
+                        'a new/cleared object returns None, the warmed object answered from the output of its previous query')
+            elif n in ('curv', 'growth') and fb_used:
+                key = 'curvature-fallback-poisoned-cache'
+                res.count('class:poisoned-cache')
+                what = ('curvatureFactor / getGrowthAndInterfacialComposition at a two-phase condition: a new/cleared object computes the factors, the warmed object — whose cached '
+                        'composition-set list lost the precipitate during an earlier query without two-phase result — answered from the output of a previous query')
+            elif phase_set_mismatch(events, eventsR):
+                key = 'cached-equilibrium-phase-set-differs-from-global'
+                what = ('%s: the two-phase equilibrium computed from the cached composition sets found phases %s, the global equilibrium of a cleared object %s '
+                        '(pycalphad local solver is start-dependent near the phase boundary)' % (n, k2_phase_sets(events), k2_phase_sets(eventsR)))
             else:
                 key = 'purity:%s:%s%s:%s' % (n, method, ':array-vs-single' if parts is not None else '', sit)
                 what = 'value of %s on the warmed object differs from the value on a cleared object (rtol %g)' % (n, RTOL)
@@ -877,12 +922,28 @@ def run_sequence(ctx, res, kind, method, qs, inst, use_model, seq_id):
     for q in reversed(qs):
         if q['name'] in ('df', 'interdiff', 'tracer', 'ic') and fresh_checked < 2:
             N = mk_therm(kind, method, dens)
-            vN, _ = call_public(N, q)
-            vW, _ = call_public(W, q)
+            inst.log.clear(); inst.on = True
+            try:
+                vN, _ = call_public(N, q)
+            finally:
+                inst.on = False
+            evN = list(inst.log)
+            inst.log.clear(); inst.on = True
+            try:
+                vW, _ = call_public(W, q)
+            finally:
+                inst.on = False
+            evW = list(inst.log)
             ok, worst = vals_close(vW, vN, q['name'])
             if not ok:
-                res.violate('purity:%s:%s:new-object' % (q['name'], method), 'value on the warmed object differs from the value on a brand-new object',
-                            {'part': 'thermo', 'object': kind, 'method': method, 'sequence': qs, 'failing_query': q}, flat(vW)[:8], flat(vN)[:8])
+                d1 = {'part': 'thermo', 'object': 'Al-Zr binary' if kind == 'B' else 'Ni-Al-Cr ternary', 'method': method, 'sequence': qs, 'failing_query': q}
+                if phase_set_mismatch(evW, evN):
+                    res.violate('cached-equilibrium-phase-set-differs-from-global',
+                                '%s: cached two-phase equilibrium found %s, the global equilibrium of a brand-new object %s' % (q['name'], k2_phase_sets(evW), k2_phase_sets(evN)),
+                                d1, flat(vW)[:8], flat(vN)[:8])
+                else:
+                    res.violate('purity:%s:%s:new-object' % (q['name'], method), 'value on the warmed object differs from the value on a brand-new object',
+                                d1, flat(vW)[:8], flat(vN)[:8])
             fresh_checked += 1
             res.count('purity-new-object-compared')
     # ---------------- model replay
@@ -947,6 +1008,9 @@ def corr_thermo(ctx, res, use_model=True):
                            dict(name='df', x=x2, T=T0, rm=False, arr=False), dict(name='df', x=x2, T=T0, rm=False, arr=False),
                            dict(name='method', m='tangent'), dict(name='df', x=x2, T=T0, rm=False, arr=False),
                            dict(name='method', m='curvature'), dict(name='df', x=M_X2[1], T=T0, rm=False, arr=False)]
+        scripted_A = [dict(name='df', x=M_X2[3], T=M_T[2], rm=False, arr=False), dict(name='df', x=M_X2[1], T=M_T[4], rm=False, arr=False),
+                      dict(name='df', x=x2, T=T0, rm=False, arr=False), dict(name='df', x=x2, T=T0, rm=False, arr=False)]
+        run_sequence(ctx, res, 'M', 'approximate', scripted_A, inst, use_model, 's3'); sid += 1
         run_sequence(ctx, res, 'M', 'tangent', scripted_switch, inst, use_model, 's0'); sid += 1
         run_sequence(ctx, res, 'M', 'tangent', scripted_M, inst, use_model, 's1'); sid += 1
         run_sequence(ctx, res, 'B', 'tangent', scripted_B, inst, use_model, 's2'); sid += 1
@@ -1001,8 +1065,11 @@ def replay(ctx, entry):
         return not viol
     if c.get('part') == 'thermo':
         return replay_thermo(ctx, c, key)
-    # broadcast cases are regenerated from the seed
+    # broadcast cases are regenerated from the recorded seed/tier (same generator order as corr: hash first)
+    ctx = vlib.Ctx(PROP, entry.get('tier', 'quick'), int(entry.get('seed', 0)))
+    ctx.driver_ok = False
     res = Result()
+    corr_hash(ctx, Result(), ctx.n(300, 6000), use_model=False)
     corr_broadcast(ctx, res, ctx.n(400, 8000), use_model=False)
     hit = [v for v in res.violations if v['key'] == key]
     for v in hit[:3]:
